@@ -149,6 +149,11 @@ class P:
             for _ in range(rng.choice([2, 3, 5])):
                 c = rng.randint(1, 30)
                 singles.append("nf5 %s %s" % (hx(rand_addr(rng)), hx(self.packet(rng, c, distinct=rng.random() < 0.5))))
+            if rng.random() < 0.5 and len(singles) >= 2:
+                # the SAME datagram from the same agent again, at once and after others (replicators and relays do that): every
+                # occurrence is decoded like the first
+                a, b = singles[0], singles[1]
+                singles = [a, b, a, a] + singles[2:] + [b, a]
             line = "nf5seq " + " ".join(x.split(" ", 1)[1] for x in singles)
             self.seq[line] = singles
             out.append(line)
